@@ -1,5 +1,62 @@
-(* provisional *)
-From Lime Require Import Hs.Types.
-Theorem C08_placeholder : forall a, state_eqb a a = true.
-Proof. exact state_eqb_refl. Qed.
-Print Assumptions C08_placeholder.
+(* C08 — Client handshake tolerates any server and reports establishment truthfully.  Statements only. *)
+From Coq Require Import List Bool Arith String.
+Import ListNotations.
+From Lime Require Import Hs.Types Hs.Client Hs.ClientSpec Hs.ClientFacts.
+Open Scope string_scope.
+Open Scope list_scope.
+
+(* For arbitrary selector and authenticator functions and every server script
+   (any length; regressions, empty or unknown options, repetitions, data
+   envelopes, undecodable bytes, EOF anywhere), the client's trace and result
+   satisfy c08_spec (Hs/ClientSpec.v): (a) no panic; (b) a returned session is
+   the server's last word and, when it is established, the channel carries
+   exactly its id, its `to` as local node and its `from` as remote node;
+   (c) after the first envelope every envelope echoes the id of the server's
+   latest session envelope; (d) credentials only as the direct answer to an
+   authentication request; (e) after finished/failed the connection is closed. *)
+Theorem C08_client_ok : forall (conf : cconf) (ins : list sin),
+  c08_spec (cestablish c_repaired conf ins) = true.
+Proof. exact client_ok. Qed.
+Print Assumptions C08_client_ok.
+
+(* (a) on its own *)
+Theorem C08_no_panic : forall conf ins, snd (cestablish c_repaired conf ins) <> CPanic.
+Proof.
+  intros conf ins. pose proof (client_ok conf ins) as H.
+  destruct (cestablish c_repaired conf ins) as [[t c] out]. cbn in *.
+  destruct out; discriminate.
+Qed.
+Print Assumptions C08_no_panic.
+
+(* Client.buildChannel hands out a channel only when the handshake's last word is established *)
+Theorem C08_build_ok_only_established : forall conf ins,
+  build_ok (cestablish c_repaired conf ins) = true ->
+  exists t c s, cestablish c_repaired conf ins = (t, c, CRet s) /\ vs_state s = SEstablished /\
+                uc_state c = SEstablished /\ uc_sid c = vs_id s /\ uc_local c = vs_to s /\ uc_remote c = vs_from s.
+Proof.
+  intros conf ins Hb. pose proof (client_ok conf ins) as H.
+  destruct (cestablish c_repaired conf ins) as [[t c] out]. cbn in Hb.
+  destruct out as [s| | |]; try discriminate. apply state_eqb_eq in Hb.
+  exists t, c, s. split; auto. split; auto.
+  cbn in H. apply andb_prop in H. destruct H as [_ H].
+  destruct (last_ses t None) as [s'|]; [|discriminate].
+  repeat (apply andb_prop in H; destruct H as [H ?]).
+  rewrite Hb in *. cbn in *.
+  repeat match goal with H : _ && _ = true |- _ => apply andb_prop in H; destruct H end.
+  repeat match goal with
+  | H : state_eqb _ _ = true |- _ => apply state_eqb_eq in H
+  | H : String.eqb _ _ = true |- _ => apply String.eqb_eq in H
+  | H : Nat.eqb _ _ = true |- _ => apply Nat.eqb_eq in H
+  end. auto.
+Qed.
+Print Assumptions C08_build_ok_only_established.
+
+(* the tree as found: a regressing state crashes the client *)
+Theorem C08_refuted_as_found :
+  let conf := {| cc_comp_sel := fun _ => "none"; cc_enc_sel := fun _ => "none"; cc_auth := fun _ _ => ("guest", 0);
+                 cc_identity := 1; cc_kind := TTcp false; cc_tls_ok := true |} in
+  let v st := VSes {| vs_state := st; vs_id := "S1"; vs_from := 9; vs_to := 0; vs_encopts := []; vs_compopts := [];
+                      vs_schemeopts := ["guest"]; vs_enc := ""; vs_comp := ""; vs_round := None |} in
+  snd (cestablish c_as_found conf [v SAuthenticating; v SNew]) = CPanic.
+Proof. reflexivity. Qed.
+Print Assumptions C08_refuted_as_found.
